@@ -326,6 +326,10 @@ func registerHarnessIntrinsics(m map[string]intrinsic) {
 		w.noOneShot = !a[0].(*Term).IsTrue()
 		fin(nil)
 	})
+	h("vSetOneShotMax", func(w *World, g *G, a []Value, fin func(Value)) {
+		w.oneShotMax = int64(w.argInt(a[0]))
+		fin(nil)
+	})
 	h("vSetClockStep", func(w *World, g *G, a []Value, fin func(Value)) {
 		w.clockStep = w.argInt(a[0])
 		fin(nil)
